@@ -13,6 +13,7 @@ type Parser struct {
 	didEndStatement bool
 	inFunction      bool
 	inLoop          bool
+	lexErr          error
 }
 
 type parseRule struct {
@@ -107,6 +108,11 @@ func (p *Parser) error(pos int, msg string) SyntaxError {
 func (p *Parser) advance() (Token, error) {
 	t, err := p.lexer.Next()
 	if err != nil {
+		// remember the first lexer error: some callers ignore the result of
+		// consume, and the error must still be reported where it happened
+		if p.lexErr == nil {
+			p.lexErr = err
+		}
 		return t, err
 	}
 	p.previous = p.current
@@ -966,6 +972,14 @@ func (p *Parser) parseFunction() (ExprFunction, error) {
 }
 
 func (p *Parser) ParseExpression() (Expr, error) {
+	expr, err := p.parseExpression()
+	if p.lexErr != nil {
+		return nil, p.lexErr
+	}
+	return expr, err
+}
+
+func (p *Parser) parseExpression() (Expr, error) {
 	if _, err := p.advance(); err != nil {
 		return nil, err
 	}
@@ -980,6 +994,14 @@ func (p *Parser) ParseExpression() (Expr, error) {
 }
 
 func (p *Parser) Parse() (Program, error) {
+	prog, err := p.parseProgram()
+	if p.lexErr != nil {
+		return Program{}, p.lexErr
+	}
+	return prog, err
+}
+
+func (p *Parser) parseProgram() (Program, error) {
 	prog := Program{}
 	rules := make([]Rule, 0)
 	functions := make([]ExprFunction, 0)
